@@ -1,5 +1,5 @@
 (* C18 — non-vacuity examples *)
-From Coq Require Import ZArith List Bool Permutation.
+From Coq Require Import ZArith List Bool Permutation Lia.
 From FV Require Import Lib.RustInt C18.Model C18.Proofs.
 Import ListNotations.
 Open Scope Z_scope.
@@ -35,7 +35,7 @@ Qed.
 (* the builder on a short-offset array: glyph 1 replaced by 3 bytes (padded to 4), others kept *)
 Example c18_builder_nonvacuous :
   patch_offset_array [{| gp_gids := [1]; gp_tables := [T_glyf]; gp_offs := [1; 4]; gp_raw := [0; 7; 8; 9] |}]
-    T_glyf [0; 2; 2; 6] [1; 2; 3; 4; 5; 6] ot_short [ot_short] 2
+    T_glyf [0; 2; 2; 6] [1; 2; 3; 4; 5; 6] ot_short [ot_short] (6, 10) 2
   = inr (ot_short, [0; 2; 6; 10], [1; 2; 7; 8; 9; 0; 3; 4; 5; 6]).
 Proof. vm_compute. reflexivity. Qed.
 
@@ -44,3 +44,22 @@ Definition w1 := {| gp_gids := [1]; gp_tables := [T_glyf]; gp_offs := [1; 3]; gp
 Definition w2 := {| gp_gids := [1]; gp_tables := [T_glyf]; gp_offs := [2; 4]; gp_raw := [0; 7; 8; 9] |}.
 Example c18_order_matters_when_disagreeing : dedup [w1; w2] T_glyf <> dedup [w2; w1] T_glyf.
 Proof. vm_compute. discriminate. Qed.
+
+(* the hypotheses of c18_grouping_independent are satisfiable: a 3-glyph short-loca font, two agreeing,
+   overlapping patches; one call and two calls all succeed (and, by the theorem, agree) *)
+Definition gf : font :=
+  [(T_IFT, repeat 0 32); (T_glyf, [1; 2; 3; 4]); (T_head, repeat 0 54); (T_loca, [0; 0; 0; 1; 0; 2; 0; 2]);
+   (T_maxp, [0; 0; 80; 0; 0; 3])].
+Definition gi1 : pinfo := (0, 0, [], 6).
+Definition gi2 : pinfo := (1, 0, [], 14).
+Example c18_grouping_nonvacuous :
+  gm_ok gf /\ gids_nonneg ([v1] ++ [v2]) /\ views_agree T_glyf ([v1] ++ [v2]) /\
+  lists_tag ([v1] ++ [v2]) T_gvar = false /\
+  (exists F12 F1 F2, gk_core gf ([gi1] ++ [gi2]) ([v1] ++ [v2]) = inr F12 /\ gk_core gf [gi1] [v1] = inr F1 /\
+                     gk_core F1 [gi2] [v2] = inr F2 /\ F2 = F12 /\ lookup F12 T_glyf = Some [1; 2; 7; 8; 9; 0]).
+Proof.
+  split; [repeat constructor; cbn; lia|]. split; [repeat constructor; cbn; lia|].
+  split; [apply c18_views_agree_nonvacuous|]. split; [reflexivity|].
+  eexists; eexists; eexists. split; [vm_compute; reflexivity|]. split; [vm_compute; reflexivity|].
+  split; [vm_compute; reflexivity|]. split; reflexivity.
+Qed.
